@@ -250,6 +250,14 @@ func runsFor(prop, tier string) []run {
 		return []run{
 			{"rebuild-empty-joiner-writes-in-every-gap", mk(withData, []string{"RB", "Step", "W0", "R"}, 5, 0, 1, 3), pick(28, 30), minutes(pickf(1.1, 8))},
 			{"rebuild-diverged-joiner-writes-in-every-gap", mk(diverged, []string{"RB", "Step", "W0"}, 4, 0, 0, 5), pick(28, 32), minutes(pickf(0.6, 8))},
+			// the joiner is AHEAD of the source: writes in flight reached it and nobody else before it dropped out (they were
+			// never acknowledged), so its revision counter is the higher one while the chains carry the same names
+			{"rebuild-joiner-ahead-of-the-source", mk(append(append([]string{}, rw3...), "W:0", "MonFail:2", "Ahead:2", "Restart:2", "W:0"), func() []string {
+				if th {
+					return []string{"RB", "Step", "W0", "R"}
+				}
+				return []string{"RB", "Step"} // the quick tier walks the rebuild itself; writes in every gap are the thorough tier's
+			}(), 4, 0, 1, 5), pick(30, 32), minutes(pickf(0.5, 4))},
 			{"rebuild-full-volume-scattered-overwrites", func() eb.Cfg {
 				c := mk(append(append([]string{}, rw2...), "W:0", "W:0", "W:0", "W:0"), []string{"RB", "Step", "Wb"}, 6, 0, 0, 3)
 				c.WBlocks = []int{0, 2}
@@ -280,7 +288,7 @@ func runsFor(prop, tier string) []run {
 			// after the receiver sized the file, the replica process exiting after the failed rebuild, the retry meeting
 			// the receiver that is still alive
 			{"rebuild-through-the-real-sync-agent", func() eb.Cfg {
-				c := mk(withData, []string{"RB", "Step", "XferFail", "XferKill", "Crash", "MonFail"}, 2, 2, 0, 4)
+				c := mk(withData, []string{"RB", "Step", "XferFail", "XferKill", "AgentRestart", "Crash", "MonFail"}, 2, 2, 0, 4)
 				c.RealAgent, c.AgentPorts = true, 3
 				return c
 			}(), pick(16, 50), minutes(pickf(0.7, 6))},
@@ -355,10 +363,18 @@ func runsFor(prop, tier string) []run {
 			// one transfer of a snapshot file dies half way (the sender exits non-zero): the copy is retried from the start
 			{"clone-with-a-file-transfer-dying-half-way", mk(polling(src2), []string{"CloneProc", "Step", "StepX", "XferFail"}, 0, 1, 3), pick(24, 34), minutes(pickf(0.5, 4))},
 			{"clone-through-the-real-sync-agent", func() eb.Cfg {
-				c := mk(polling(src2), []string{"CloneProc", "Step", "StepX", "XferFail", "XferKill"}, 0, 1, 3)
+				c := mk(polling(src2), []string{"CloneProc", "Step", "StepX", "XferFail", "XferKill", "AgentRestart"}, 0, 1, 3)
 				c.RealAgent, c.AgentPorts = true, 3
 				return c
 			}(), pick(16, 40), minutes(pickf(0.7, 5))},
+			// ... from the root "the clone has started and the source's sync agent is about to die with the next snapshot-file
+			// sender": agent restarted with an empty process table, first status poll refused, the ids taken again by
+			// unrelated transfers that end with exit code 0
+			{"clone-while-the-source-sync-agent-restarts", func() eb.Cfg {
+				c := mk(append(polling(src2), "CloneProc:1", "AgentRestart"), []string{"Step", "StepX"}, 0, 1, 3)
+				c.RealAgent, c.AgentPorts = true, 3
+				return c
+			}(), pick(18, 30), minutes(pickf(0.6, 3))},
 			{"clone-vs-start-all-interleavings", mk(src2, []string{"BReg", "BStart", "StepX", "CloneProc", "Step"}, 0, 0, 3), pick(34, 40), minutes(pickf(1.0, 10))},
 		}
 	case "C13":
